@@ -23,17 +23,33 @@ use crate::{
     },
 };
 
+/// Maximum nesting depth of Embedded Signature subpackets that the parser follows.
+///
+/// Each level copies the rest of the subpacket body and recurses, so without a limit both memory
+/// and stack use are controlled by the input. (The only use of this subpacket in RFC 9580 is the
+/// primary key binding signature, which is nested once.)
+const MAX_EMBEDDED_SIGNATURE_DEPTH: usize = 4;
+
 impl Signature {
     /// Parses a `Signature` packet from the given buffer
     ///
     /// Ref: <https://www.rfc-editor.org/rfc/rfc9580.html#name-signature-packet-type-id-2>
-    pub fn try_from_reader<B: BufRead>(packet_header: PacketHeader, mut i: B) -> Result<Self> {
+    pub fn try_from_reader<B: BufRead>(packet_header: PacketHeader, i: B) -> Result<Self> {
+        Self::try_from_reader_nested(packet_header, i, 0)
+    }
+
+    /// `depth` is the number of Embedded Signature subpackets this signature is nested in.
+    fn try_from_reader_nested<B: BufRead>(
+        packet_header: PacketHeader,
+        mut i: B,
+        depth: usize,
+    ) -> Result<Self> {
         let version = i.read_u8().map(SignatureVersion::from)?;
 
         let signature = match version {
             SignatureVersion::V2 | SignatureVersion::V3 => v3_parser(packet_header, version, i)?,
-            SignatureVersion::V4 => v4_parser(packet_header, version, i)?,
-            SignatureVersion::V6 => v6_parser(packet_header, i)?,
+            SignatureVersion::V4 => v4_parser(packet_header, version, i, depth)?,
+            SignatureVersion::V6 => v6_parser(packet_header, i, depth)?,
             _ => {
                 let rest = i.rest()?.freeze();
                 Signature::unknown(packet_header, version, rest)
@@ -102,6 +118,7 @@ fn v4_parser<B: BufRead>(
     packet_header: PacketHeader,
     version: SignatureVersion,
     mut i: B,
+    depth: usize,
 ) -> Result<Signature> {
     debug_assert_eq!(version, SignatureVersion::V4);
 
@@ -116,7 +133,7 @@ fn v4_parser<B: BufRead>(
     // Hashed subpacket data set (zero or more subpackets).
     let hsub_len: usize = i.read_be_u16()?.into();
     let hsub_raw = i.read_take(hsub_len);
-    let hsub = subpackets(packet_header.version(), hsub_len, hsub_raw)?;
+    let hsub = subpackets(packet_header.version(), hsub_len, hsub_raw, depth)?;
     debug!(
         "found {} hashed subpackets in {} bytes",
         hsub.len(),
@@ -127,7 +144,7 @@ fn v4_parser<B: BufRead>(
     // Unhashed subpacket data set (zero or more subpackets).
     let usub_len: usize = i.read_be_u16()?.into();
     let usub_raw = i.read_take(usub_len);
-    let usub = subpackets(packet_header.version(), usub_len, usub_raw)?;
+    let usub = subpackets(packet_header.version(), usub_len, usub_raw, depth)?;
     debug!(
         "found {} unhashed subpackets in {} bytes",
         usub.len(),
@@ -154,7 +171,11 @@ fn v4_parser<B: BufRead>(
 
 /// Parse a v6 signature packet
 /// Ref: https://www.rfc-editor.org/rfc/rfc9580.html#name-versions-4-and-6-signature-
-fn v6_parser<B: BufRead>(packet_header: PacketHeader, mut i: B) -> Result<Signature> {
+fn v6_parser<B: BufRead>(
+    packet_header: PacketHeader,
+    mut i: B,
+    depth: usize,
+) -> Result<Signature> {
     // One-octet signature type.
     let typ = i.read_u8().map(SignatureType::from)?;
     // One-octet public-key algorithm.
@@ -166,7 +187,7 @@ fn v6_parser<B: BufRead>(packet_header: PacketHeader, mut i: B) -> Result<Signat
     // Hashed subpacket data set (zero or more subpackets).
     let hsub_len: usize = i.read_be_u32()?.try_into()?;
     let hsub_raw = i.read_take(hsub_len);
-    let hsub = subpackets(packet_header.version(), hsub_len, hsub_raw)?;
+    let hsub = subpackets(packet_header.version(), hsub_len, hsub_raw, depth)?;
     debug!(
         "found {} hashed subpackets in {} bytes",
         hsub.len(),
@@ -177,7 +198,7 @@ fn v6_parser<B: BufRead>(packet_header: PacketHeader, mut i: B) -> Result<Signat
     // Unhashed subpacket data set (zero or more subpackets).
     let usub_len: usize = i.read_be_u32()?.try_into()?;
     let usub_raw = i.read_take(usub_len);
-    let usub = subpackets(packet_header.version(), usub_len, usub_raw)?;
+    let usub = subpackets(packet_header.version(), usub_len, usub_raw, depth)?;
     debug!(
         "found {} unhashed subpackets in {} bytes",
         usub.len(),
@@ -221,6 +242,7 @@ fn subpackets<B: BufRead>(
     packet_version: PacketHeaderVersion,
     len: usize,
     mut i: B,
+    depth: usize,
 ) -> Result<Vec<Subpacket>> {
     let mut packets = Vec::with_capacity(len.min(32));
 
@@ -234,7 +256,14 @@ fn subpackets<B: BufRead>(
         debug!("reading subpacket {typ:?}: critical? {is_critical}, len: {len}");
 
         let mut body = i.read_take(len);
-        let packet = subpacket(typ, is_critical, packet_len, packet_version, &mut body)?;
+        let packet = subpacket(
+            typ,
+            is_critical,
+            packet_len,
+            packet_version,
+            &mut body,
+            depth,
+        )?;
         debug!("found subpacket {packet:?}");
 
         if !body.rest()?.is_empty() {
@@ -254,6 +283,7 @@ fn subpacket<B: BufRead>(
     packet_len: SubpacketLength,
     packet_version: PacketHeaderVersion,
     mut body: B,
+    depth: usize,
 ) -> Result<Subpacket> {
     use super::subpacket::SubpacketType::*;
 
@@ -282,7 +312,7 @@ fn subpacket<B: BufRead>(
         RevocationReason => rev_reason(&mut body),
         Features => features(&mut body),
         SignatureTarget => sig_target(&mut body),
-        EmbeddedSignature => embedded_sig(packet_version, &mut body),
+        EmbeddedSignature => embedded_sig(packet_version, &mut body, depth),
         IssuerFingerprint => issuer_fingerprint(&mut body),
         PreferredEncryptionModes => preferred_encryption_modes(&mut body),
         IntendedRecipientFingerprint => intended_recipient_fingerprint(&mut body),
@@ -606,7 +636,13 @@ fn sig_target<B: BufRead>(mut i: B) -> Result<SubpacketData> {
 fn embedded_sig<B: BufRead>(
     packet_version: PacketHeaderVersion,
     mut i: B,
+    depth: usize,
 ) -> Result<SubpacketData> {
+    ensure!(
+        depth < MAX_EMBEDDED_SIGNATURE_DEPTH,
+        "embedded signatures nested more than {} deep",
+        MAX_EMBEDDED_SIGNATURE_DEPTH
+    );
     // copy to bytes, to avoid recursive type explosion
     let signature_bytes = i.rest()?.freeze();
     let header = PacketHeader::from_parts(
@@ -614,7 +650,7 @@ fn embedded_sig<B: BufRead>(
         Tag::Signature,
         PacketLength::Fixed(signature_bytes.len().try_into()?),
     )?;
-    let sig = Signature::try_from_reader(header, signature_bytes.reader())?;
+    let sig = Signature::try_from_reader_nested(header, signature_bytes.reader(), depth + 1)?;
 
     Ok(SubpacketData::EmbeddedSignature(Box::new(sig)))
 }
